@@ -22,7 +22,7 @@ triangle `a b c` hands to pixel (x, y). This file proves, in exact arithmetic:
 import Retro.Props.C01.Compose
 import Retro.Props.C04
 import Retro.Props.C05
-import Retro.Props.C06
+import Retro.Props.C06.Buffer
 import Mathlib.Tactic.LinearCombination
 
 namespace Retro.Props.C01
